@@ -46,7 +46,7 @@ def sums(t: Optional[torch.Tensor]) -> Dict[str, Any]:
     if t is None:
         return dict(ABSENT)
     x = t.detach().to(torch.float64).reshape(-1)
-    if x.numel() == 0 or not bool(torch.all(x == x.round())) or float(x.abs().max()) > 64:
+    if x.numel() == 0 or not bool(torch.all(x == x.round())) or float(x.numel()) ** 2 * float(x.abs().max()) ** 2 >= 2.0 ** 30:   # n * ssq must fit TLC's 32-bit integers
         return {"present": True, "inexact": True}
     xi = [int(v) for v in x.tolist()]
     return {"present": True, "n": len(xi), "sabs": sum(abs(v) for v in xi), "ssum": sum(xi), "ssq": sum(v * v for v in xi),
@@ -264,7 +264,10 @@ def trace_dynamo(rng: random.Random, variant: int, modes: Tuple[str, ...] = ("al
     tm = track_scales(mod)
     traces = []
     for mode in modes:
+        mode, _, rows = mode.partition("@")     # "all@2": this call has 2 rows instead of 4 -> TorchDynamo recompiles
         x = fxgen.int_inputs(rng, 1)[0]
+        if rows:
+            x = x[: int(rows)].clone()
         px = x.clone().requires_grad_()
         mod.zero_grad(set_to_none=True)
         pout = mod(px)
@@ -287,8 +290,11 @@ def trace_dynamo(rng: random.Random, variant: int, modes: Tuple[str, ...] = ("al
         cx = x.clone().requires_grad_()
         feed = []
         for n in g.nodes:
-            if n.op == "placeholder":   # Dynamo lifts parameters to placeholders
-                feed.append(tm.lin.weight.detach().clone().requires_grad_() if "parameters" in str(n.target) else cx)
+            if n.op == "placeholder":   # Dynamo lifts parameters to placeholders; after a shape change also the (symbolic) batch size
+                if not isinstance(n.meta.get("example_value"), torch.Tensor) and n.meta.get("example_value") is not None:
+                    feed.append(int(x.shape[0]))
+                else:
+                    feed.append(tm.lin.weight.detach().clone().requires_grad_() if "parameters" in str(n.target) else cx)
         cout = cap.run(*feed)
         cout = cout[0] if isinstance(cout, tuple) else cout
         if mode != "none":
@@ -510,8 +516,8 @@ def run(rep: Report, tier: str) -> None:
         gens.append(["backend_real", rng.randrange(1 << 30), rng.randint(1, 7), list(HIST[i % len(HIST)]), ("f64", "f64", "f32")[i % 3]])
     for i in range(40 if quick else 400):
         gens.append(["analyse", rng.randrange(1 << 30), rng.randint(1, 6)])
-    for v in range(3 if quick else 12):
-        gens.append(["dynamo", rng.randrange(1 << 30), v, list([("all", "none"), ("all",), ("none", "all", "none")][v % 3])])
+    for v in range(4 if quick else 12):
+        gens.append(["dynamo", rng.randrange(1 << 30), v, list([("all", "none"), ("all", "all@2"), ("none", "all", "none"), ("all", "none@2", "all")][v % 4])])
     for i, gen in enumerate(gens):
         ts = generate(gen)
         if ts is None:
